@@ -837,6 +837,8 @@ def run_histories(ctx, n_hist, tag):
         sub = ministar[:ctx.n(60, 1500)]
         mres, mlog = C01.run_model(ctx, [pr["coq"] for pr, _, _ in sub])
         for (pr, step, rep), m in zip(sub, mres):
+            if m == C01.RESOURCE:
+                continue
             if m is None:
                 failures.append({"key": "model-run-failed", "what": "the Coq reference could not be evaluated: %s" % mlog[-200:], "replay": rep})
                 continue
